@@ -378,7 +378,7 @@ func GenParallel(t *rapid.T, name string, o GenOpts) *rt.Spec {
 		run := 1 + uniform(t, "run", 3)
 		asTasks := prob(t, "astasks", 0.5)
 		for k := 0; k < run && i < np; k++ {
-			sp := []string{"lit", "lit", "lit", "top", "method", "funcvar", "callret", "generic", "samemethod", "samemethod", "pkgvar"}[uniform(t, "spelling", 11)]
+			sp := []string{"lit", "lit", "lit", "top", "method", "funcvar", "callret", "generic", "samemethod", "samemethod", "pkgvar", "nextmethod", "nextmethod"}[uniform(t, "spelling", 13)]
 			pt := rt.PTaskSpec{Unit: unit, Ctx: prob(t, "ctx", 0.5), Err: prob(t, "err", 0.5), Group: -1, Sp: sp}
 			if sp == "top" || sp == "generic" || sp == "pkgvar" {
 				pt.Ctx = true
